@@ -616,9 +616,13 @@ class GroupBy:
             True if any group key contains null values, False otherwise
         """
         if self.key_is_chunked:
-            return self.group_ikey.null_count > 0
+            # null keys are coded -1 (the codes themselves are never arrow nulls)
+            return any(
+                len(chunk) > 0 and chunk.to_numpy().min() < 0
+                for chunk in self.group_ikey.chunks
+            )
         else:
-            return self.group_ikey.min() < 0
+            return len(self.group_ikey) > 0 and bool(self.group_ikey.min() < 0)
 
     @property
     def _max_threads_for_numba(self) -> int:
